@@ -4,7 +4,7 @@ import SwhVerif.Base.Bytes
 # `swh.model.from_disk.Directory` (properties C10, C14)
 
 Nodes live in a heap indexed by `Nat` ids (Python object identity).  `H` is the type of hashes and
-`hashFn : Data → List (Name × H) → H` the (abstract) hash function.  Reading conventions:
+`hashFn : Data → List (EntryV H) → H` the (abstract) hash function.  Reading conventions:
 
 * `cache = none` is the only "falsy" value of `__hash` (Python's `if not self.__hash` also treats
   `0`, `b""` … as absent; hashes are assumed never falsy).
@@ -42,9 +42,6 @@ structure EntryV (H : Type) where
   cdata : Data
   target : H
   deriving DecidableEq, Repr
-
-/-- what the id of a `model.Directory` / the generic hash is computed from -/
-def EntryV.kv {H} (e : EntryV H) : Name × H := (e.name, e.target)
 
 /-- `directory_entry_sort_key` -/
 def entKey {H} (e : EntryV H) : Bytes := if e.isDir then e.name ++ [bSlash] else e.name
@@ -141,7 +138,7 @@ def invalidateTop (h : Heap H) (n : Id) : Heap H := invalidate h.size h n
 
 /-! ### update_hash / compute_hash / entries / to_model -/
 
-variable (hashFn : Data → List (Name × H) → H)
+variable (hashFn : Data → List (EntryV H) → H)
 
 /-- `[(name, type(child), child.data, child.hash) for name, child in self.items()]`, threading the
 heap: `child.hash` is `update_hash()` and may fill caches. -/
@@ -173,15 +170,15 @@ def entriesProp (upd : Heap H → Id → Heap H × H) (h : Heap H) (n : Id) :
     let m := sortE r.2
     (r.1.modify n (fun x => { x with entriesCache := some m }), m)
 
-/-- `compute_hash()`: `Directory` → `self.to_model().id`; other kinds → hash of the data and of
-`[(name, child.hash)]` in dict order (leaves have no children). -/
+/-- `compute_hash()`: `Directory` → `self.to_model().id` (the sorted entries with their perms);
+other kinds → hash of the data and of the children in dict order (leaves have no children). -/
 def computeHash (upd : Heap H → Id → Heap H × H) (h : Heap H) (n : Id) : Heap H × H :=
   if (h.get n).isDir then
     let r := toModel upd h n
-    (r.1, hashFn (h.get n).data (r.2.map EntryV.kv))
+    (r.1, hashFn (h.get n).data r.2)
   else
     let r := childEntries upd h (h.get n).children
-    (r.1, hashFn (h.get n).data (r.2.map EntryV.kv))
+    (r.1, hashFn (h.get n).data r.2)
 
 /-- `update_hash(force=…)`.
 ```
@@ -408,7 +405,7 @@ def step (h : Heap H) : Op → Heap H × Out H
     else if !(h.get n).isDir then (h, .err .outOfModel)
     else
       let r := toModel (hashProp hashFn) h n
-      (r.1, .model r.2 (hashFn (h.get n).data (r.2.map EntryV.kv)))
+      (r.1, .model r.2 (hashFn (h.get n).data r.2))
   | .collect n =>
     if n < h.size then let r := collect hashFn (topFuel h) (topFuel h) h n; (r.1, .ids r.2)
     else (h, .err .badId)
@@ -431,10 +428,17 @@ end
 
 /-! ### the injective instantiation used by the driver -/
 
-/-- hashes as terms: a hash *is* the description of the structure it was computed from -/
+/-- hashes as terms: a hash *is* the description of the structure it was computed from
+(per child: name, kind, child data, child hash) -/
 inductive HTerm where
-  | node (data : Data) (kids : List (Name × HTerm))
+  | node (data : Data) (kids : List (Name × Bool × Data × HTerm))
 
-def HTerm.hashFn : Data → List (Name × HTerm) → HTerm := HTerm.node
+/-- `q` maps the data of a node to what its hash retains of it (the identity for an injective
+hash; the driver uses a `q` that forgets the permission part of a `Content`'s data, as `sha1_git`
+does) -/
+def HTerm.hashFnQ (q : Data → Data) (d : Data) (es : List (EntryV HTerm)) : HTerm :=
+  HTerm.node (q d) (es.map (fun e => (e.name, e.isDir, e.cdata, e.target)))
+
+def HTerm.hashFn : Data → List (EntryV HTerm) → HTerm := HTerm.hashFnQ id
 
 end Swh.Merkle
